@@ -6,7 +6,7 @@ import os
 import re
 
 from . import refparse as P
-from .common import WORK, Stats, Violation, hx, pmap, shim, finish
+from .common import WORK, Stats, Violation, hx, pmap, shim, finish, collect
 
 S16 = ['형', '흑', '혀', '하', '엉', '앙', '앗', '가', '.', '…', '♥', '♡', '?', '!', ' ', '\n']
 S10 = ['형', '하', '앙', '흐', '읏', '.', '♥', '?', '!', '\n']
@@ -298,8 +298,7 @@ def run_c04(tier):
     for i in range(0, len(lst), 300):
         tasks.append(('listing', lst[i:i + 300], 'c04-%d' % i))
     tasks.sort(key=lambda t: 0 if t[0] in ('explicit', 'listing') else 1)
-    for r in pmap(_c04_task, [(t,) for t in tasks]):
-        st.merge(r)
+    collect(st, pmap(_c04_task, [(t,) for t in tasks]))
     cov = {
         'states': len(st.sets.get('configs', ())),
         'transitions': len(st.sets.get('trans', ())),
@@ -577,8 +576,7 @@ def run_c08(tier):
         files.append('\n'.join(P.spell_syllables(c.kind, c.syl) + c.dotsp + ''.join(c.toks) for c in sl[i:i + 150]))
     for i in range(0, len(files), 8):
         tasks.append(('listing', files[i:i + 8], 'c08-%d' % i))
-    for r in pmap(_c08_task, [(t,) for t in tasks]):
-        st.merge(r)
+    collect(st, pmap(_c08_task, [(t,) for t in tasks]))
     cov = {
         'states': len(singles0),
         'transitions': st.n.get('renderings', 0) + st.n.get('strings', 0) + st.n.get('listing_lines', 0),
